@@ -318,7 +318,7 @@ def binarize_guard(prog: Program) -> RuleResult:
         res.ok(construct, "no shortcut: every input goes through the refinement product", nontrivial=False)
     for st in short_ifs:
         calls = [c for c in calls_in(st.test) if (dotted(c.func) or "").endswith("is_binary")]
-        args = {unparse(c.args[0]) for c in calls if c.args}
+        args = {unparse(dealias(fn, c.args[0], st)) for c in calls if c.args}
         trees = {"self.object_tree", "self.species_lca.tree"}
         test = st.test
         conj = isinstance(test, ast.BoolOp) and isinstance(test.op, ast.And) and all(isinstance(v, ast.Call) for v in test.values)
@@ -359,7 +359,7 @@ def binarize_guard(prog: Program) -> RuleResult:
                 arg = many
         if not (isinstance(arg, ast.Call) and (dotted(arg.func) or "").endswith("binarize") and arg.args and isinstance(var, ast.Name)):
             raise AnalysisError("binarize: product arguments are not refinements of the two trees")
-        src[var.id] = unparse(arg.args[0])
+        src[var.id] = unparse(dealias(fn, arg.args[0], loop))
     want = {"object_tree": "self.object_tree", "species_tree": "self.species_lca.tree"}
     written: Dict[str, str] = {}
     for d in ast.walk(loop):
@@ -1939,14 +1939,34 @@ def mask_range(prog: Program) -> RuleResult:
             if isinstance(v, ast.Lambda) and len(v.args.args) == 2
             and any(isinstance(x, ast.Call) and (dotted(x.func) == "range" or (dotted(x.func) or "").endswith("subseq_complete")) for x in ast.walk(v.body))
         ]
-        if len(lambdas) != 1:
-            raise AnalysisError(f"{qual}: the lambda enumerating candidate syntenies was not found")
-        lam = lambdas[0]
-        lparams = [a.arg for a in lam.args.args]
+        construct = f"{modname}:{qual}/non-root-masks"
+        helper_fn = None
+        if not lambdas:
+            # the lambda hands its two arguments to a helper of the module that enumerates the masks
+            for c in calls_in(fn):
+                for v in list(c.args) + [kw.value for kw in c.keywords]:
+                    if isinstance(v, ast.Lambda) and len(v.args.args) == 2 and isinstance(v.body, ast.Call) and isinstance(v.body.func, ast.Name):
+                        got = resolve_callee(prog, mod, v.body.func)
+                        if got is None or not isinstance(got[1], FuncNode) or got[0] is not mod:
+                            continue
+                        if not any(isinstance(x, ast.Call) and (dotted(x.func) == "range" or (dotted(x.func) or "").endswith("subseq_complete")) for x in ast.walk(got[1])):
+                            continue
+                        hp = func_params(got[1])
+                        given = {hp[i]: dotted(a) for i, a in enumerate(v.body.args) if i < len(hp)}
+                        given.update({k.arg: dotted(k.value) for k in v.body.keywords if k.arg})
+                        back = {val: key for key, val in given.items() if val}
+                        lp = [a.arg for a in v.args.args]
+                        if lp[0] in back and lp[1] in back:
+                            helper_fn, lam = got[1], v
+                            lparams = [back[lp[0]], back[lp[1]]]
+        if helper_fn is None:
+            if len(lambdas) != 1:
+                raise AnalysisError(f"{qual}: the lambda enumerating candidate syntenies was not found")
+            lam = lambdas[0]
+            lparams = [a.arg for a in lam.args.args]
         if len(lparams) != 2:
             raise AnalysisError(f"{qual}: allowed_syntenies does not take (ordering, object)")
         p_order, p_obj = lparams
-        construct = f"{modname}:{qual}/non-root-masks"
         n += 1
 
         def is_root_test(test: ast.AST) -> Optional[bool]:
@@ -1956,13 +1976,28 @@ def mask_range(prog: Program) -> RuleResult:
                 return None if inner is None else not inner
             if isinstance(test, ast.Compare) and len(test.ops) == 1 and isinstance(test.ops[0], (ast.Eq, ast.Is, ast.NotEq, ast.IsNot)):
                 sides = {dotted(test.left), dotted(test.comparators[0])}
-                if p_obj in sides and f"{input_param}.object_tree" in sides:
+                if p_obj in sides and (f"{input_param}.object_tree" in sides or (helper_fn is not None and any((x or "").endswith(".object_tree") for x in sides))):
                     return isinstance(test.ops[0], (ast.Eq, ast.Is))
             if isinstance(test, ast.Call) and isinstance(test.func, ast.Attribute) and test.func.attr == "is_root" and dotted(test.func.value) == p_obj:
                 return True
             return None
 
-        body = lam.body
+        if helper_fn is not None:
+            # every answer of the helper that is not given under the root test is what the other nodes get
+            others = []
+            for r in walk_no_nested(helper_fn):
+                if isinstance(r, ast.Return) and r.value is not None:
+                    pols = [p if pol else (None if p is None else not p) for t, pol in _dominating_tests(helper_fn, r) for p in [is_root_test(t)] if pol is not None]
+                    if any(p is True for p in pols):
+                        continue
+                    others.append(r.value)
+            if not others:
+                raise AnalysisError(f"{construct}: the helper has no answer for the nodes below the root")
+            body = others[0]
+            for o in others[1:]:
+                body = o if not (isinstance(o, ast.Call) and dotted(o.func) == "range") else body
+        else:
+            body = lam.body
         non_root = body
         if isinstance(body, ast.IfExp):
             pol = is_root_test(body.test)
@@ -4203,8 +4238,230 @@ def fill_object_major(prog: Program) -> RuleResult:
             res.ok(construct, f"{len(calls)} fill call(s) under the post-order walk of the object tree")
     return res
 
+# ---------------------------------------------------------------------------
+# eleventh batch
+
+
+def update_policy_symmetric(prog: Program) -> RuleResult:
+    res = RuleResult(
+        "UPDATE-POLICY-SYMMETRIC",
+        "`Entry.update` treats the two merge policies alike: every candidate goes through the comparison that is "
+        "guarded by the policy flags - no early `return`, and no builtin `min` / `max` / `sorted` choosing among the "
+        "candidates whatever the policy says",
+    )
+    mod = prog.module(DP)
+    fn = method_def(prog.cls(DP, "Entry"), "update")
+    if fn is None:
+        raise AnalysisError("Entry.update not found")
+    construct = f"{DP}:Entry.update/policy-symmetric"
+    rets = [n for n in walk_no_nested(fn) if isinstance(n, ast.Return)]
+    picks = [c for c in ast.walk(fn) if isinstance(c, ast.Call) and isinstance(c.func, ast.Name) and c.func.id in ("min", "max", "sorted")]
+    loops = [n for n in walk_no_nested(fn) if isinstance(n, ast.For)]
+    if not loops:
+        raise AnalysisError("Entry.update: the loop over the candidates was not found")
+    if rets:
+        res.fail(construct, f"`{short(rets[0], 60)}` leaves update before (or while) the candidates are compared: what the shortcut does instead is not guarded by both policy flags", mod, rets[0])
+    elif picks:
+        res.fail(construct, f"`{short(picks[0], 60)}` picks among the candidates with a fixed direction: an entry that maximises gets the smallest value of a batch (or the other way round)", mod, picks[0])
+    else:
+        res.ok(construct, "one loop, every candidate compared under the policy flags")
+    return res
+
+
+def proxy_cell_store(prog: Program) -> RuleResult:
+    res = RuleResult(
+        "PROXY-CELL-STORE",
+        "`EntryProxy.update` writes into the cell of the table: the entry that receives the candidates is the "
+        "subscripted cell itself, or a local that was stored into the cell by a subscript assignment on every path "
+        "where it is fresh - `setdefault` does not replace the None a cell holds after it has been read",
+    )
+    mod = prog.module(DP)
+    fn = method_def(prog.cls(DP, "EntryProxy"), "update")
+    if fn is None:
+        raise AnalysisError("EntryProxy.update not found")
+    construct = f"{DP}:EntryProxy.update/cell-store"
+    recv = [c for c in ast.walk(fn) if isinstance(c, ast.Call) and isinstance(c.func, ast.Attribute) and c.func.attr == "update" and any(isinstance(a, ast.Starred) for a in c.args)]
+    if not recv:
+        raise AnalysisError("EntryProxy.update: the call that hands the candidates to the real entry was not found")
+    soft = [c for c in ast.walk(fn) if isinstance(c, ast.Call) and isinstance(c.func, ast.Attribute) and c.func.attr == "setdefault"]
+    if soft:
+        res.fail(construct, f"`{short(soft[0], 60)}` keeps what the cell holds - the None placeholder of a cell that was read before it was written - so the fresh entry and its candidates are lost", mod, soft[0])
+        return res
+    for call in recv:
+        target = call.func.value
+        if isinstance(target, ast.Subscript):
+            continue
+        if not isinstance(target, ast.Name):
+            raise AnalysisError(f"EntryProxy.update: receiver `{short(target)}` not understood")
+        fresh = [
+            st for st in walk_no_nested(fn)
+            if isinstance(st, ast.Assign) and any(isinstance(t, ast.Name) and t.id == target.id for t in st.targets)
+            and isinstance(st.value, ast.Call) and isinstance(st.value.func, ast.Attribute) and st.value.func.attr == "entry"
+        ]
+        for st in fresh:
+            chained = any(isinstance(t, ast.Subscript) for t in st.targets)
+            stored = any(
+                isinstance(o, ast.Assign) and any(isinstance(t, ast.Subscript) for t in o.targets) and isinstance(o.value, ast.Name) and o.value.id == target.id
+                for o in walk_no_nested(fn)
+            )
+            if not (chained or stored):
+                res.fail(construct, f"`{short(st, 60)}` creates the entry but no subscript assignment puts it into the table: the candidates go to an entry nobody can read", mod, st)
+                return res
+    res.ok(construct, "the candidates go to the cell of the table")
+    return res
+
+
+def ancestry_total(prog: Program) -> RuleResult:
+    res = RuleResult(
+        "ANCESTRY-TOTAL",
+        "the ancestry structure accepts every rooted tree: building it (`LowestCommonAncestor.__init__`, "
+        "`_euler_tour`) raises nothing, and a query refuses only the empty set of nodes",
+    )
+    mod = prog.module(TREES)
+    cls = prog.cls(TREES, "LowestCommonAncestor")
+    n = 0
+    bodies = [(f"LowestCommonAncestor.{m.name}", m) for m in cls.body if isinstance(m, FuncNode)] + [("_euler_tour", prog.func(TREES, "_euler_tour"))]
+    for qual, fn in bodies:
+        n += 1
+        construct = f"{TREES}:{qual}/total"
+        raises = [r for r in walk_no_nested(fn) if isinstance(r, ast.Raise)]
+        bad = None
+        for r in raises:
+            if qual.endswith(".__call__"):
+                va = fn.args.vararg.arg if fn.args.vararg else None
+                tests = [t for t, _pol in _dominating_tests(fn, r)]
+                names = {x.id for t in tests for x in ast.walk(t) if isinstance(x, ast.Name)} - {"len"}
+                if tests and va is not None and names == {va}:
+                    continue
+            bad = r
+            break
+        if bad is not None:
+            res.fail(construct, f"`{short(bad, 70)}` refuses an input: every rooted tree, of any arity at any node, has well-defined ancestry", mod, bad)
+        else:
+            res.ok(construct, "no refusal" if not raises else "refuses only the empty set of nodes")
+    if n < 5:
+        raise AnalysisError(f"ANCESTRY-TOTAL: only {n} functions found")
+    return res
+
+
+def parent_encapsulated(prog: Program) -> RuleResult:
+    res = RuleResult(
+        "PARENT-ENCAPSULATED",
+        "the parent forest of the disjoint-set structure is read through `find`: outside `__init__`, `find` and "
+        "`unite`, no method subscripts or iterates `self.parent` (a parent link is not a representative until the "
+        "path to the root has been followed), only its length is used",
+    )
+    modname = "utils.disjoint_set"
+    mod = prog.module(modname)
+    cls = prog.cls(modname, "DisjointSet")
+    n = 0
+    for m in cls.body:
+        if not isinstance(m, FuncNode) or m.name in ("__init__", "find", "unite"):
+            continue
+        n += 1
+        construct = f"{modname}:DisjointSet.{m.name}/through-find"
+        bad = None
+        for node in ast.walk(m):
+            if isinstance(node, ast.Attribute) and node.attr == "parent" and dotted(node) == "self.parent":
+                par = mod.parent(node)
+                if isinstance(par, ast.Call) and isinstance(par.func, ast.Name) and par.func.id == "len":
+                    continue
+                bad = par if par is not None else node
+                break
+        if bad is not None:
+            res.fail(construct, f"`{short(bad, 70)}` reads parent links directly: a link is the representative only for roots and their children", mod, bad)
+        else:
+            res.ok(construct, "representatives come from find()")
+    if n < 2:
+        raise AnalysisError("PARENT-ENCAPSULATED: methods of DisjointSet not found")
+    return res
+
+
+def draw_no_skip(prog: Program) -> RuleResult:
+    res = RuleResult(
+        "DRAW-NO-SKIP",
+        "`_tikz_draw_branches` draws every branch record of the layout: the loop over the records has no `continue`, "
+        "`break` or `return` - what is drawn for a record depends on its kind only, never on where it happens to lie",
+    )
+    modname = "render.tikz"
+    mod = prog.module(modname)
+    fn = prog.func(modname, "_tikz_draw_branches")
+    loops = [l for l in walk_no_nested(fn) if isinstance(l, ast.For) and "branches" in (short(l.iter, 200) or "")]
+    if not loops:
+        raise AnalysisError("_tikz_draw_branches: the loop over the branch records was not found")
+    construct = f"{modname}:_tikz_draw_branches/every-record"
+    jumps = [j for l in loops for j in walk_no_nested(l) if isinstance(j, (ast.Continue, ast.Break, ast.Return))]
+    if jumps:
+        tests = [short(t, 50) for t, _p in _dominating_tests(fn, jumps[0])]
+        res.fail(construct, f"`{short(jumps[0])}` under {tests[-1:] or ['no test']} skips the rest of a record: its event node, child edges or transfer arrow are not drawn", mod, jumps[0])
+    else:
+        res.ok(construct, "no jump inside the loop over the branch records")
+    return res
+
+
+LAZY_BUILTINS = ("map", "filter", "zip", "reversed", "iter", "enumerate")
+
+
+def no_lazy_values(prog: Program) -> RuleResult:
+    res = RuleResult(
+        "NO-LAZY-VALUES",
+        "what the model stores can be read more than once: no `map` / `filter` / `zip` / generator object is put into a "
+        "dictionary, a field, a constructor argument or a returned record of the model modules - a one-shot iterator "
+        "is empty the second time the object is serialised, priced or compared",
+    )
+    n = 0
+
+    def lazy(expr: ast.AST) -> bool:
+        if isinstance(expr, ast.GeneratorExp):
+            return True
+        return isinstance(expr, ast.Call) and isinstance(expr.func, ast.Name) and expr.func.id in LAZY_BUILTINS
+
+    for modname in ("model.reconciliation", "model.synteny", "model.tree_mapping"):
+        mod = prog.module(modname)
+        for qual, fn in prog.defs(modname).items():
+            if not isinstance(fn, FuncNode):
+                continue
+            n += 1
+            construct = f"{modname}:{qual}/stored-values"
+            bad = None
+            for node in walk_no_nested(fn):
+                stored: List[ast.AST] = []
+                if isinstance(node, ast.Dict):
+                    stored = [v for v in node.values if v is not None]
+                elif isinstance(node, ast.DictComp):
+                    stored = [node.value]
+                elif isinstance(node, (ast.List, ast.Tuple, ast.Set)) and isinstance(getattr(node, "ctx", ast.Load()), ast.Load):
+                    stored = list(node.elts)
+                elif isinstance(node, ast.Assign) and any(isinstance(t, (ast.Attribute, ast.Subscript)) for t in node.targets):
+                    stored = [node.value]
+                elif isinstance(node, ast.Call) and (
+                    (isinstance(node.func, ast.Name) and (node.func.id[:1].isupper() or node.func.id == "cls"))
+                    or (isinstance(node.func, ast.Attribute) and node.func.attr in ("add_feature", "setdefault", "append", "add"))
+                ):
+                    stored = list(node.args) + [k.value for k in node.keywords]
+                for v in stored:
+                    if lazy(v):
+                        bad = v
+                        break
+                if bad is not None:
+                    break
+            if bad is not None:
+                res.fail(construct, f"`{short(bad, 60)}` is stored as it is: an iterator yields its items once, the second reader of the object finds nothing", mod, bad)
+            else:
+                res.ok(construct, "no one-shot iterator stored")
+    if n < 20:
+        raise AnalysisError(f"NO-LAZY-VALUES: only {n} functions of the model modules seen")
+    return res
+
+
 
 RULES = {
+    "UPDATE-POLICY-SYMMETRIC": update_policy_symmetric,
+    "PROXY-CELL-STORE": proxy_cell_store,
+    "ANCESTRY-TOTAL": ancestry_total,
+    "PARENT-ENCAPSULATED": parent_encapsulated,
+    "DRAW-NO-SKIP": draw_no_skip,
+    "NO-LAZY-VALUES": no_lazy_values,
     "FILL-OBJECT-MAJOR": fill_object_major,
     "WRAP-FINAL-TEXT": wrap_final_text,
     "SUPERTREE-DELEGATES": supertree_delegates,
